@@ -6,7 +6,8 @@ rebuilt from /repo and all of them compared with the same reference model (set m
  (H) in-process: every non-empty subset of a 14-name alphabet is turned into a perfect-hash directory
      index by the real _gi_typelib_hash_builder_* functions, packed, and every probe string of the probe
      menu is looked up with _gi_typelib_hash_search followed by the caller's final strcmp exactly as
-     g_typelib_get_dir_entry_by_name does (vt/c/drv_hash.c, mode `subsets`), for cmph seeds 1..S.
+     g_typelib_get_dir_entry_by_name does (vt/c/drv_hash.c, mode `subsets`), for several srand seeds
+     (cmph's BDZ chooses one of 15 hash functions with rand() % 15; thorough covers all 15 first draws).
  (T) real typelibs: subsets are rendered as GIR (constants, enumerations with/without GType and error
      domain, records with/without GType), compiled by the rebuilt g-ir-compiler, and probed through
      g_typelib_get_dir_entry_by_name WITH the directory index and with the index section id patched to
@@ -149,8 +150,25 @@ def judge_set(r, sel, probes, pindex):
     return out
 
 
+def covering_seeds():
+    """cmph's BDZ picks its hash function with rand() % 15: srand values whose first draw covers all 15
+    (glibc rand(); computed, not assumed).  Simplest-first: srand(1) is what g-ir-compiler runs with."""
+    try:
+        import ctypes
+        libc = ctypes.CDLL('libc.so.6')
+        first = {}
+        for sd in range(1, 2000):
+            libc.srand(sd)
+            first.setdefault(libc.rand() % 15, sd)
+        if len(first) == 15:
+            return [1] + sorted(v for v in first.values() if v != 1)
+    except Exception:
+        pass
+    return list(range(1, 16))
+
+
 def _run_subsets(b, drv, spec, lo, hi, seeds):
-    rc, out, err = tools.run(b, [drv, 'subsets', spec, str(lo), str(hi), str(seeds)], timeout=900)
+    rc, out, err = tools.run(b, [drv, 'subsets', spec, str(lo), str(hi), ','.join(map(str, seeds))], timeout=900)
     return rc, out.decode('ascii', 'replace').splitlines(), err
 
 
@@ -196,17 +214,21 @@ def _work_hash(chunk):
                     mask = int(r['tag'])
                     sel = [HASH_ALPHA[k] for k in bits(mask)]
                     part.add(evaluations=1 + (len(probes) if r.get('b') else 0))
-                    if r['seed'] == 1:
+                    if r['seed'] == seeds[0]:
                         part.add(states=1, transitions=1)
+                        sigs = set()
                     probs = judge_set(r, sel, probes, pindex)
                     if probs is None:
-                        part.add(unspecified=1)
+                        part.add(unspecified=1, unbuildable_key_set_builds=1)
                         part.outcome('unbuildable n=%d' % len(sel))
                         continue
+                    sigs.add(r.get('sig'))
+                    if r['seed'] == seeds[-1] and len(sigs) > 1:
+                        part.add(key_sets_where_the_seed_changed_the_slots=1)
                     part.add(traces_validated_against_impl=1, lookups_inprocess=len(probes))
                     part.nontrivial('H%d' % mask)
                     part.outcome(('H', len(sel), r['size'], r['dm'] % 4, r['perm']))
-                    if mask % 1499 == 7 and r['seed'] == 1:
+                    if mask % 1499 == 7 and r['seed'] == seeds[0]:
                         part.sample({'explorer': 'in-process', 'names': [show(s) for s in sel], 'packed_size': r['size'],
                                      'probes': len(probes), 'found': len(r['found'])})
                     for kind, text, probe in probs[:1]:
@@ -402,7 +424,6 @@ def judge_typelib_output(cases, lines, plan, part, counts):
         if op == 'P':
             part.outcome(('P', d['c_prefix'], t[1]) if len(probe) < 6 else ('P', 'long', t[1]))
             counts['unspecified'] += 1
-            counts['lookups'] += 1
             continue
         phase = what[4]
         field = {'N': 'name', 'G': 'gtype', 'E': 'domain'}[op]
@@ -528,8 +549,9 @@ def run_cases(b, drv, cases, wd, part, probes3):
         return
     counts = {'lookups': 0, 'unspecified': 0, 'na': 0, 'must_found': 0}
     bad = judge_typelib_output(ok_cases, out.decode('ascii', 'replace').splitlines(), plan, part, counts)
-    part.add(evaluations=counts['lookups'], lookups_typelib=counts['lookups'], unspecified=counts['unspecified'],
-             gtype_probes_without_gtype=counts['na'])
+    part.add(evaluations=counts['lookups'] + counts['unspecified'], lookups_typelib=counts['lookups'],
+             unspecified=counts['unspecified'], prefix_probes_unjudged=counts['unspecified'],
+             find_by_gtype_skipped_no_registrable_name=counts['na'])
     for ci, case in enumerate(ok_cases):
         part.add(states=len(case.docs), transitions=len(case.docs), traces_validated_against_impl=1)
         part.nontrivial('T' + case.key())
@@ -658,6 +680,29 @@ def _work_ladder_compile(chunk):
     return part.result()
 
 
+def _work_try_compile(chunk):
+    """bisection step: does a GIR with n constants compile?  (the typelib is kept for the boundary rung)"""
+    asan, n, outdir = chunk
+    part = Part()
+    b = cbuild.build(asan)
+    sub = os.path.join(outdir, 'B%d' % n)
+    os.makedirs(sub, exist_ok=True)
+    rc, err, data = tools.compile_gir(b, ladder_doc(n).xml(), sub, name='Test-1.0')
+    ok = rc == 0 and data is not None
+    if ok and [e['name'] for e in read_directory(data)['entries']] != ladder_names(n):
+        ok = False
+    import shutil
+    if ok:
+        os.unlink(os.path.join(sub, 'Test-1.0.gir'))
+    else:
+        shutil.rmtree(sub, ignore_errors=True)
+    part.add(evaluations=1, ladder_bisection_compiles=1)
+    part.outcome(('bisect', ok))
+    r = part.result()
+    r['n'], r['ok'] = n, ok
+    return r
+
+
 def _work_ladder_probe(chunk):
     tier, asan, n, outdir, lo, hi, nslices = chunk
     part = Part()
@@ -746,12 +791,13 @@ def run(ctx):
     asan = thorough
     b = cbuild.build(asan)
     b.driver('drv_hash')
-    seeds = 4 if thorough else 2
+    allseeds = covering_seeds()
+    seeds = allseeds if thorough else allseeds[:3]
     ladder = LADDER_THOROUGH if thorough else LADDER_QUICK
     masks, note = typelib_masks(ctx.tier)
     nprobes, gprobes, eprobes = tl_probes()
     hprobes = probes_for(HASH_ALPHA)
-    ctx.set(rule='(H) all %d non-empty subsets of the 14-name alphabet, cmph seeds 1..%d, built and packed in-process by '
+    ctx.set(rule='(H) all %d non-empty subsets of the 14-name alphabet, srand seeds %r (cmph picks one of 15 hash functions with rand()), built and packed in-process by '
                  '_gi_typelib_hash_builder_*, %d probes each (members, proper prefixes, 1-char extensions, 1-char '
                  'substitutions, empty) through _gi_typelib_hash_search + final strcmp; (T) %d subsets compiled to real '
                  'typelibs (6 entry kinds rotating over the names, 4 c:identifier-prefixes), each also next to a second '
@@ -783,11 +829,46 @@ def run(ctx):
         ranges = [(max(1, i * total // nr), (i + 1) * total // nr) for i in range(nr)]
         for c in chunked(rotate(ranges, ctx.seed), nr // 2):
             jobs.append((_work_hash, (ctx.tier, asan, seeds, c)))
-        for r in pmap(_dispatch, jobs):
+        held = []
+        for job, r in zip(jobs, pmap(_dispatch, jobs)):
+            if job[0] is _work_ladder_compile:
+                held.append((job[1][2], r))
+            else:
+                ctx.merge(r)
+        # a rung that does not compile: locate the smallest failing entry count below it by k-ary bisection
+        # with the compiler, so that the report names the boundary; the last compiling count becomes a rung
+        extra_rungs = []
+        failed = sorted(n for n, r in held if r['violations'])
+        if failed:
+            okr = [n for n, r in held if not r['violations'] and n < failed[0]]
+            lo, hi = (max(okr) if okr else 0), failed[0]
+            while hi - lo > 1:
+                k = min(15, hi - lo - 1)
+                pts = sorted(set(lo + (hi - lo) * (i + 1) // (k + 1) for i in range(k)) - {lo, hi})
+                res = list(pmap(_dispatch, [(_work_try_compile, (asan, n, outdir)) for n in pts]))
+                for r in res:
+                    ctx.merge(r)
+                bad = [r['n'] for r in res if not r['ok']]
+                if bad:
+                    hi = min(bad)
+                good = [r['n'] for r in res if r['ok'] and r['n'] < hi]
+                if good:
+                    lo = max(lo, max(good))
+                elif not bad:
+                    break
+            ctx.set(ladder_first_failing_N=hi, ladder_last_compiling_N=lo)
+            note = ('; bisection with the compiler: the smallest failing entry count is %d, %d entries still compile'
+                    % (hi, lo))
+            for n, r in held:
+                r['violations'] = [(k, d + note, c) for k, d, c in r['violations']]
+            if lo >= 1 and lo not in ladder and os.path.exists(os.path.join(outdir, 'B%d' % lo, 'Test-1.0.typelib')):
+                os.rename(os.path.join(outdir, 'B%d' % lo), os.path.join(outdir, 'L%d' % lo))
+                extra_rungs.append(lo)
+        for n, r in held:
             ctx.merge(r)
         # phase 2: probe the ladder typelibs that were produced
         jobs = []
-        for n in sorted(ladder, reverse=True):
+        for n in sorted(ladder + extra_rungs, reverse=True):
             np_ = len(ladder_probes(ladder_names(n)))
             nsl = 1 if n <= 4096 else (16 if n <= 16384 else 48)
             for i in range(nsl):
@@ -798,8 +879,9 @@ def run(ctx):
         tools.cleanup(outdir)
     ctx.assumptions += [
         'glibshim headers declare the GLib ABI correctly (trusted base); system GLib 2.74 runtime',
-        'cmph draws its hash seeds from rand(); the in-process explorer fixes srand(1..S) before each build, a fresh '
-        'g-ir-compiler process always starts from the C default srand(1)',
+        'cmph picks one of 15 hash functions with rand() %% 15; the in-process explorer calls srand(s) before each build '
+        'for %s (thorough: values of s whose first draw covers all 15); a fresh g-ir-compiler process always starts '
+        'from the C default srand(1)' % ('a covering list' if thorough else 'the first three of a covering list'),
         'directory names are restricted to [A-Za-z0-9_-] by typelib validation, so the non-ASCII name is a member only '
         'in the in-process explorer and a probe everywhere',
         'find_by_gtype needs a live GType: the prober registers a boxed GType under every probe string that GLib accepts '
@@ -839,9 +921,11 @@ def replay(ctx, case):
         try:
             spec = os.path.join(wd, 'spec')
             write_spec(spec, names, probes)
-            seeds = int(case.get('seeds') or 1)
-            rc, out, err = tools.run(b, [drv, 'full', spec, str(seeds)])
-            print('key set:', [show(n) for n in names], 'seeds 1..%d' % seeds, 'driver exit', rc, err.strip()[-300:])
+            seeds = case.get('seeds') or [1]
+            if isinstance(seeds, int):
+                seeds = [seeds]
+            rc, out, err = tools.run(b, [drv, 'full', spec, ','.join(map(str, seeds))])
+            print('key set:', [show(n) for n in names], 'srand seeds %r' % seeds, 'driver exit', rc, err.strip()[-300:])
             if rc != 0:
                 return False
             ok = True
